@@ -696,7 +696,7 @@ var decisions = []vivid.SupervisionDecision{
 func build(tier string) []*vexp.Scenario {
 	bounds := []int{0, 1}
 	if tier == "thorough" {
-		bounds = []int{0, 1, 2, 3}
+		bounds = []int{0, 1, 2}
 	}
 	var out []*vexp.Scenario
 	add := func(p params) {
